@@ -1730,3 +1730,79 @@ def wrap_flag_owner_rule(ctx, rid, scope, flag="isHeterogeneous", min_instances=
                     r.ok(f"{f.qualname}: {o}.{a} wrapped under {tester}.{flag}")
                 else:
                     r.fail(f.qualname, f"wrap-owner:{a}:{tester}", f.file, n.lineno, f.name, f"`{norm_text(c)[:70]}` wraps `{o}.{a}` under the test `{tester}.{flag}`: whether `{o}.{a}` is a field is a property of `{o}`, not of `{tester}`: when only one of the two is given per element the array is wrapped as a constant (shape (1, 1, Ne, ...)) or the reverse")
+
+
+# ---------------------------------------------------------------------------
+# state stored on somebody else's object
+# ---------------------------------------------------------------------------
+def foreign_state_rule(ctx, rid, scope, min_instances=50):
+    """A value derived from an object's state and stored ON that object from outside its class - `groupElem._memo = ...`,
+    `groupElem.__dict__.setdefault("_memo", {})`, `setattr(mesh, ...)` in a module function or in a method of another class - is a
+    memo its owner cannot invalidate: the owner's invalidation (`_InitMatrix` -> clear_cached_computed_values, the observers,
+    `Need_Update`) knows only what the owner's own class stores.  The rule resolves the class of a parameter from its
+    annotation (or, for un-annotated parameters, from the repository's naming convention groupElem / mesh / simu) and
+    reports every store through it that is not a property setter of that class."""
+    repo = ctx.repo
+    r = ctx.rule(rid, "no state is stored on an element group / mesh / simulation / model from outside its class (a memo its owner cannot invalidate): only property setters are assigned through a parameter", min_instances=min_instances)
+    conv = {"groupElem": "EasyFEA.FEM._group_elem._GroupElem", "mesh": "EasyFEA.FEM._mesh.Mesh", "simu": "EasyFEA.Simulations._simu._Simu"}
+    owners = [repo.cls(q) for q in conv.values()] + [repo.cls("EasyFEA.Models._utils._IModel"), repo.cls("EasyFEA.FEM._field.Field")]
+
+    def cls_of(f, name):
+        for a in f.node.args.args + f.node.args.kwonlyargs:
+            if a.arg != name:
+                continue
+            ann = a.annotation
+            if ann is not None:
+                txt = ann.value if isinstance(ann, ast.Constant) and isinstance(ann.value, str) else (dotted(ann) or "")
+                txt = txt.split("[")[0].split(".")[-1].strip('"')
+                r_ = repo.resolve_name(f.module, txt) if txt else None
+                if r_ is not None and hasattr(r_, "mro"):
+                    return r_
+                for o in owners:
+                    if o.name == txt:
+                        return o
+            if name in conv:
+                return repo.cls(conv[name])
+        return None
+
+    for f in sorted(repo.all_functions(), key=lambda f: f.qualname):
+        if not scope(f):
+            continue
+        params = {a.arg for a in f.node.args.args + f.node.args.kwonlyargs} - {"self", "cls"}
+        if not params:
+            continue
+        r.instance(fn=f.qualname)
+        bad = None
+        for n in ast.walk(f.node):
+            tgt = []
+            if isinstance(n, ast.Assign):
+                tgt = n.targets
+            elif isinstance(n, (ast.AugAssign, ast.AnnAssign)):
+                tgt = [n.target]
+            for t in tgt:
+                base, attr, via_dict = None, None, False
+                tt = t
+                if isinstance(tt, ast.Subscript) and isinstance(tt.value, ast.Attribute) and tt.value.attr == "__dict__" and isinstance(tt.value.value, ast.Name):
+                    base, attr, via_dict = tt.value.value.id, norm_text(tt.slice), True
+                elif isinstance(tt, ast.Attribute) and isinstance(tt.value, ast.Name):
+                    base, attr = tt.value.id, tt.attr
+                if base in params:
+                    ci = cls_of(f, base)
+                    if ci is not None and any(o in ci.mro for o in owners) and (f.cls is None or not (f.cls in ci.mro or ci in f.cls.mro)):
+                        if via_dict or repo.lookup_setter(ci, attr) is None:
+                            bad = (n, f"`{norm_text(n)[:70]}` stores `{attr}` on the {ci.name} it was handed")
+            if isinstance(n, ast.Call):
+                d = dotted(n.func) or ""
+                if d in ("setattr", "object.__setattr__") and n.args and isinstance(n.args[0], ast.Name) and n.args[0].id in params:
+                    ci = cls_of(f, n.args[0].id)
+                    if ci is not None and any(o in ci.mro for o in owners) and (f.cls is None or not (f.cls in ci.mro or ci in f.cls.mro)):
+                        bad = (n, f"`{norm_text(n)[:70]}` stores an attribute on the {ci.name} it was handed")
+                elif isinstance(n.func, ast.Attribute) and n.func.attr in ("setdefault", "update", "__setitem__") and isinstance(n.func.value, ast.Attribute) and n.func.value.attr == "__dict__" and isinstance(n.func.value.value, ast.Name) and n.func.value.value.id in params:
+                    ci = cls_of(f, n.func.value.value.id)
+                    if ci is not None and any(o in ci.mro for o in owners) and (f.cls is None or not (f.cls in ci.mro or ci in f.cls.mro)):
+                        bad = (n, f"`{norm_text(n)[:70]}` writes into the instance dictionary of the {ci.name} it was handed")
+        if bad:
+            n, why = bad
+            r.fail(f.qualname, "foreign-state", f.file, n.lineno, f.name, f"{why}: the owner's invalidation (cache clearing on a coordinate change, Need_Update, the observers) does not know this state, which survives every change of the object it was computed from")
+        else:
+            r.ok()
